@@ -68,15 +68,16 @@ def check_encode(case, ctx):
     bip39, BaseWallet = _impl()
     e = case["entropy"]
     for form, text in (("lower", e.hex()), ("upper", e.hex().upper())):
-        st_, s = call(bip39.mnemonic_from_entropy, text)
+        st_, s = call(bip39.mnemonic_from_entropy, entropy=text) if form == "upper" else call(bip39.mnemonic_from_entropy, text)
         if st_ == "exc":
             raise Violation("C04/encode/refused-valid", "mnemonic_from_entropy(%s hex of %d bytes) raised %r"
                             % (form, len(e), s))
         _judge_sentence("C04/encode", "mnemonic_from_entropy(%s)" % text, s, e)
-    st_, w = call(BaseWallet.from_entropy_hex, e.hex(), case["pw"], case["testnet"])
-    if st_ == "exc":
-        raise Violation("C04/encode/refused-valid", "BaseWallet.from_entropy_hex raised %r" % (w,))
-    _judge_sentence("C04/wallet", "BaseWallet.from_entropy_hex(%s).mnemonic" % e.hex(), w.mnemonic, e)
+    for text in (e.hex(), e.hex().upper()):
+        st_, w = call(BaseWallet.from_entropy_hex, text, case["pw"], case["testnet"])
+        if st_ == "exc":
+            raise Violation("C04/encode/refused-valid", "BaseWallet.from_entropy_hex(%s) raised %r" % (text, w))
+        _judge_sentence("C04/wallet", "BaseWallet.from_entropy_hex(%s).mnemonic" % text, w.mnemonic, e)
 
 
 def nt_encode(case):
@@ -113,6 +114,10 @@ def check_reject_size(case, ctx):
         if st_ == "ok":
             raise Violation("C04/reject/wrong-size-accepted", "mnemonic_from_entropy of %d bytes (%s) returned a "
                             "%d-word sentence %r" % (len(b), text[:24], len(str(s).split(" ")), str(s)[:80]))
+    st_, w = call(BaseWallet.from_entropy_hex, b.hex().upper())
+    if st_ == "ok":
+        raise Violation("C04/reject/wrong-size-wallet", "BaseWallet.from_entropy_hex of %d bytes (upper-case hex) built a wallet "
+                        "with mnemonic %r" % (len(b), getattr(w, "mnemonic", None)))
     st_, w = call(BaseWallet.from_entropy_hex, b.hex())
     if st_ == "ok":
         raise Violation("C04/reject/wrong-size-wallet", "BaseWallet.from_entropy_hex of %d bytes built a wallet with "
